@@ -12,12 +12,14 @@ CONSTANTS MaxDepth, SecondDepth,
 
 L(k, a) == N(k, a, <<>>)
 Leafs == CASE Family = "scope" -> {L("sbind", "x"), L("abind", "x"), L("read", "x"), L("fail", ""), L("gbind", "g"), L("gread", "g")}
+           [] Family = "kw"    -> {L("sbind2", "x"), L("sbind", "x"), L("nbind", "x"), L("read", "x"), L("read", "y"), L("fail", "")}
            [] Family = "vars"  -> {L("vbind", "v"), L("vset", "v"), L("vread", "v"), L("fail", "")}
            [] Family = "ref"   -> {L("refuse", "r"), L("mark", ""), L("fail", "")}
 Unary == CASE Family = "scope" -> {<<"spec", "x">>, <<"fill", "">>, <<"match", "">>}
+           [] Family = "kw"    -> {<<"spec", "x">>, <<"match", "">>}
            [] Family = "vars"  -> {<<"fill", "">>}
            [] Family = "ref"   -> {<<"refdef", "r">>}
-Bin == {"tup", "pipe", "dict", "coal", "or", "and", "switch", "mdict"}
+Bin == {"tup", "pipe", "dict", "coal", "or", "and", "switch", "mdict"} \cup (IF Family = "kw" THEN {"mdict2"} ELSE {})
 RECURSIVE Trees(_)
 Trees(d) ==
   IF d = 0 THEN Leafs
@@ -28,11 +30,11 @@ Trees(d) ==
 RECURSIVE HasKindR(_, _)
 HasKindR(t, ks) == t.k \in ks \/ \E i \in 1..Len(t.c) : HasKindR(t.c[i], ks)
 RECURSIVE NoDict(_)
-NoDict(t) == t.k \notin {"dict", "mdict"} /\ \A i \in 1..Len(t.c) : NoDict(t.c[i])
+NoDict(t) == t.k \notin {"dict", "mdict", "mdict2"} /\ \A i \in 1..Len(t.c) : NoDict(t.c[i])
 RECURSIVE WellModed(_, _)
 WellModed(t, mode) ==
   /\ (t.k \in {"tup", "dict"} => mode # "MATCH")
-  /\ (t.k = "mdict" => mode = "MATCH" /\ NoDict(t.c[1]))
+  /\ (t.k \in {"mdict", "mdict2"} => mode = "MATCH" /\ NoDict(t.c[1]))
   /\ \A i \in 1..Len(t.c) : WellModed(t.c[i], IF t.k \in {"auto", "fill", "match"} THEN ModeOf(t.k) ELSE mode)
 \* a definition never contains a use of a name (no unbounded recursion in this universe; recursion on
 \* nested data is exercised by C03)
@@ -58,7 +60,7 @@ Pick ==
      \/ \E a \in Top, u \in Unary : tree' = N(u[1], u[2], <<a>>)
   /\ WellModed(tree', "AUTO") /\ NoSelfRef(tree') /\ RefsResolved(tree', tree', <<>>)
   /\ (Family # "scope" => ~caller')
-  /\ HasKind(tree', {"read", "gread", "vread", "refuse", "mark"}) /\ HasKind(tree', {"sbind", "abind", "spec", "gbind", "vbind", "refdef"})
+  /\ HasKind(tree', {"read", "gread", "vread", "refuse", "mark"}) /\ HasKind(tree', {"sbind", "abind", "spec", "gbind", "vbind", "refdef", "sbind2", "nbind"})
   /\ LET r == Start(tree', <<>>, IF caller' THEN << <<"x", <<"c">> >> >> ELSE <<>>) IN
        run' = [log |-> r.st.log, out |-> r.out, acts |-> r.st.acts]
 Next == Pick
@@ -67,7 +69,8 @@ Next == Pick
 \* what every S.x reader sees is what the static visibility rule says
 VisibilityLaw ==
   phase = 1 => \A i \in 1..Len(run.log) :
-     (run.log[i].what = "read" /\ NodeAt(tree, run.log[i].p).k = "read") => ReadAgrees(tree, run.log[i], "x", caller)
+     (run.log[i].what = "read" /\ NodeAt(tree, run.log[i].p).k = "read") =>
+         ReadAgrees(tree, run.log[i], NodeAt(tree, run.log[i].p).a, caller /\ NodeAt(tree, run.log[i].p).a = "x")
 \* Ref(name) evaluates the nearest enclosing / chained definition
 RefLaw == phase = 1 => \A i \in 1..Len(run.log) : run.log[i].what = "refuse" => RefAgrees(tree, run.log[i], "r")
 \* Vars objects: fresh per evaluation of their binder, visible like any S binding, hold the latest assignment
